@@ -22,9 +22,9 @@ def run(ctx):
     ctx.tlc_mc(fam, "Shard", "Shard_MC.cfg", workers=4, coverage=ctx.thorough)
     ctx.tlc_mc(fam, "Shard", "Shard_MC_bug.cfg", workers=1, expect_violation="Equiv")
     if ctx.thorough:
-        ctx.tlc_mc(fam, "ShardAlg", "ShardAlg_MC_big.cfg", workers=16, timeout=3000, heap="12g")
-        ctx.tlc_mc(fam, "Shard", "Shard_MC_route_big.cfg", workers=16, timeout=3000)
-        ctx.tlc_mc(fam, "Shard", "Shard_MC_big.cfg", workers=16, timeout=3000)
+        ctx.tlc_mc(fam, "ShardAlg", "ShardAlg_MC_big.cfg", workers=16, timeout=1500, heap="12g")
+        ctx.tlc_mc(fam, "Shard", "Shard_MC_route_big.cfg", workers=16, timeout=1500)
+        ctx.tlc_mc(fam, "Shard", "Shard_MC_big.cfg", workers=16, timeout=1500)
     # 2. plans for the containers out of the spec
     pdir, plans = ctx.tlc_plans(fam, "Shard_Gen", "Shard_Gen.cfg", num=ctx.q(120, 1500), depth=16)
     # 3. execute against the real code
